@@ -10,8 +10,10 @@ package c12
 // Monitors (monitor_test.go) read machine OUTPUTS and delivered inputs only.
 
 import (
+	"encoding/json"
 	"fmt"
 	"os"
+	"runtime"
 	"runtime/debug"
 	"runtime/pprof"
 	"sort"
@@ -30,6 +32,7 @@ type aResult struct {
 	MachTuples  int64  `json:"distinct_machine_state_tuples"`
 	Transitions int64  `json:"transitions"`
 	Deviations  int64  `json:"deviation_branches"`
+	Unstored    int64  `json:"budget0_states_walked_without_caching"`
 	Outcomes    int    `json:"distinct_outcomes"`
 	Seconds     float64
 }
@@ -69,7 +72,7 @@ func searchFrom(r *ev.Run, c *cfg, what string, mk func(s *searcher) (gstate, []
 		return
 	}
 	res := aResult{Config: what + " " + c.name, K: done, Executions: last.leaves.Load(), States: last.states.Load(), MachTuples: last.tupleCount(),
-		Transitions: last.transitions.Load(), Deviations: last.devsTaken.Load(), Outcomes: len(last.outcomes), Seconds: lastDur.Seconds()}
+		Transitions: last.transitions.Load(), Deviations: last.devsTaken.Load(), Unstored: last.unstored.Load(), Outcomes: len(last.outcomes), Seconds: lastDur.Seconds()}
 	*results = append(*results, res)
 	r.Add("states", res.States)
 	r.Add("distinct_machine_state_tuples", res.MachTuples)
@@ -79,10 +82,15 @@ func searchFrom(r *ev.Run, c *cfg, what string, mk func(s *searcher) (gstate, []
 	for l, n := range last.outcomes {
 		outcomes[l] += n
 	}
+	r.Add("real_simulations_memo_misses", c.sims.Load())
+	r.Add("real_process_calls", c.calls.Load())
+	r.Add("distinct_validator_states", c.nodes.Load())
+	c.roots, c.canon = nil, nil // release the memo DAG of this configuration
+	runtime.GC()
 }
 
 func TestCheck(t *testing.T) {
-	debug.SetGCPercent(400) // the visited sets and the memo DAG are long-lived; the box has the memory
+	debug.SetGCPercent(150)
 	r := ev.Start("C12", "model_checking")
 	r.SetBudget(ev.Pick(r, 140, 1500))
 	if p := os.Getenv("VERIF_C12_PROF"); p != "" {
@@ -96,6 +104,11 @@ func TestCheck(t *testing.T) {
 		"duplicate delivery and stale timeouts are not separate deviations: each is verified to be a no-op on the real machine (every memo miss / when it becomes stale)",
 		"Byzantine alphabet: nil, each correct proposer's value, one valid Byzantine-only value, one invalid value (if it can propose); any valid-round; any non-empty receiver subset",
 	)
+
+	if f := os.Getenv("VERIF_REPLAY"); f != "" {
+		replay(r, f)
+		return
+	}
 
 	// ---- (C) thresholds, (C2) vote counter differential ---------------------------------------
 	if envInt("VERIF_C12_SKIP_C", 0) == 0 {
@@ -112,10 +125,8 @@ func TestCheck(t *testing.T) {
 	// The silent-proposer configuration byz=0 has ~9x more deviation sites (every timeout class is a quiescent
 	// boundary where the whole alphabet is offered), hence one level less.
 	kA := envInt("VERIF_C12_K", -1)
-	var cfgs []*cfg
 	for _, b := range []int{0, 1, 2} {
 		c := newCfg(fmt.Sprintf("n4 equal byz=%d R=1", b), eq, b, 1)
-		cfgs = append(cfgs, c)
 		k := ev.Pick(r, 3, 3)
 		if b == 0 {
 			k = ev.Pick(r, 2, 3)
@@ -129,7 +140,6 @@ func TestCheck(t *testing.T) {
 		// three rounds from the initial state, every Byzantine position
 		for _, b := range []int{0, 1, 2, 3} {
 			c := newCfg(fmt.Sprintf("n4 equal byz=%d R=2", b), eq, b, 2)
-			cfgs = append(cfgs, c)
 			searchFrom(r, c, "A", func(s *searcher) (gstate, []opt, bool) { return s.start(), nil, true }, 2, &results, outcomes)
 		}
 		// weighted voting power: N=5 (2,1,1,1) q=4 f=1 ; N=7 (3,2,1,1) q=5 f=2 with the Byzantine validator holding 2 or 1
@@ -138,7 +148,6 @@ func TestCheck(t *testing.T) {
 			byz int
 		}{{[]uint{2, 1, 1, 1}, 1}, {[]uint{2, 1, 1, 1}, 3}, {[]uint{1, 2, 1, 1}, 0}, {[]uint{3, 2, 1, 1}, 1}, {[]uint{3, 1, 2, 1}, 2}, {[]uint{1, 3, 1, 2}, 0}} {
 			c := newCfg(fmt.Sprintf("n4 powers=%v byz=%d R=1", w.p, w.byz), w.p, w.byz, 1)
-			cfgs = append(cfgs, c)
 			searchFrom(r, c, "A", func(s *searcher) (gstate, []opt, bool) { return s.start(), nil, true }, 2, &results, outcomes)
 		}
 	}
@@ -151,7 +160,10 @@ func TestCheck(t *testing.T) {
 			g, tr, ok := s.script(sc.script)
 			if ok && sc.expect != nil {
 				if why := sc.expect(c, &g); why != "" {
-					r.Infra("scenario %q reached an unexpected configuration: %s", sc.name, why)
+					// never on the unchanged tree; under a mutant the script may lead elsewhere: not a verdict, and
+					// it must not hide the verdicts of the other parts
+					fmt.Printf("NOTE scenario %q reached an unexpected configuration: %s\n", sc.name, why)
+					return g, tr, false
 				}
 			}
 			return g, tr, ok
@@ -159,15 +171,6 @@ func TestCheck(t *testing.T) {
 	}
 
 	// ---- report -----------------------------------------------------------------------------------------
-	var sims, calls, nodes int64
-	for _, c := range cfgs {
-		sims += c.sims.Load()
-		calls += c.calls.Load()
-		nodes += c.nodes.Load()
-	}
-	r.Set("A_real_simulations_memo_misses", sims)
-	r.Set("A_real_process_calls", calls)
-	r.Set("A_distinct_validator_states", nodes)
 	r.Set("searches", results)
 	minK := 99
 	for _, x := range results {
@@ -194,9 +197,53 @@ func TestCheck(t *testing.T) {
 			r.Sample(x)
 		}
 	}
-	if len(ls) < 4 {
+	if len(ls) < 4 && r.Violations() == 0 {
 		r.Infra("vacuous exploration: only %d distinct outcomes %v", len(ls), ls)
 	}
 	pprof.StopCPUProfile()
 	r.Finish()
+}
+
+// replay re-runs one recorded violation of parts A/B (bin/check C12 --replay <file>): the recorded deviations are
+// applied to the benign schedule of the recorded configuration and every scheduler step is printed.
+func replay(r *ev.Run, file string) {
+	b, err := os.ReadFile(file)
+	if err != nil {
+		r.Infra("replay: %v", err)
+	}
+	var rec struct {
+		Key    string `json:"key"`
+		Detail struct {
+			Config string   `json:"config"`
+			Powers []uint   `json:"powers"`
+			Byz    int      `json:"byzantine"`
+			R      int      `json:"round_bound"`
+			Devs   []string `json:"deviations_from_benign_schedule"`
+		} `json:"detail"`
+	}
+	if err := json.Unmarshal(b, &rec); err != nil || len(rec.Detail.Powers) == 0 {
+		r.Infra("replay: not a search violation record (threshold / vote-counter records carry their case in the detail): %v", err)
+	}
+	os.Setenv("VERIF_C12_DEBUG", "1")
+	c := newCfg(rec.Detail.Config, rec.Detail.Powers, rec.Detail.Byz, rec.Detail.R)
+	s := newSearcher(c, r, "replay "+rec.Detail.Config)
+	fmt.Printf("replaying %q on %s: %v\n", rec.Key, rec.Detail.Config, rec.Detail.Devs)
+	g, tr, ok := s.script(rec.Detail.Devs)
+	if !ok {
+		fmt.Println("NOTE: the recorded deviations could not all be applied on this tree")
+	}
+	for { // benign continuation
+		D, cls := s.dflt(&g)
+		if D.t == oEnd {
+			break
+		}
+		s.apply(&g, D, cls, tr)
+		fmt.Printf("  [default] %-27s %s\n", c.label(D), s.describe(&g))
+	}
+	// no evidence file is written in replay mode (it would overwrite the tier's evidence)
+	fmt.Printf("REPLAY property=C12 violations_reproduced=%d\n", r.Violations())
+	if r.Violations() > 0 {
+		os.Exit(1)
+	}
+	os.Exit(0)
 }
